@@ -32,14 +32,6 @@ def sig_recbyte(run, issue, ev):
     return any(e.get("auth") == "RecoveryByteAltered" and e.get("key") == "rcde" and e.get("id", "") in issue[2] for e in _entries(ev))
 
 
-def sig_null_output(run, issue, ev):
-    h = (ev or {}).get("h", 0)
-    v202 = sched_of(run).get("V202", 0)
-    if h >= v202 or '"NULL"' not in issue[2].replace('\\"', '"'):
-        return False
-    return any(o.get("a") == "NULL" for e in _entries(ev) for t in e.get("txs", []) for o in t.get("to", []))
-
-
 def sig_spr_id_unbound(run, issue, ev):
     sprs = (ev or {}).get("in", {}).get("spr", {}).get("sprs", [])
     h = (ev or {}).get("h", 0)
@@ -55,10 +47,24 @@ def sig_band_skip(run, issue, ev):
             and not o.get("rated") and i["opr"].get("rates") != i["spr"].get("rates"))
 
 
+def sig_peg_pass(run, issue, ev):
+    sch = sched_of(run)
+    h = (ev or {}).get("h", 0)
+    if not (sch.get("ConvLimit", 0) <= h < sch.get("V20", 0)):
+        return False
+    # the executing block's held batches are not in ev["in"]; look the batch up in the scenario
+    for b in run.doc.get("blocks", []):
+        for e in b.get("entries", []):
+            cv = [t.get("conv") for t in e.get("txs", []) if t.get("conv")]
+            if "PEG" in cv and len(cv) > 1 and b["h"] < h:
+                return True
+    return False
+
+
 SIGS = {
+    "C16-peg-pass-takes-all-txs": sig_peg_pass, "C04-peg-pass-takes-all-txs": sig_peg_pass, "C03-peg-pass-takes-all-txs": sig_peg_pass,
     "C11-band-error-skips-block": sig_band_skip, "C13-band-error-skips-block": sig_band_skip,
     "C04-band-error-skips-block": sig_band_skip, "C12-band-error-skips-block": sig_band_skip,
     "C11-spr-id-unbound": sig_spr_id_unbound,
     "C05-rcde-recovery-byte": sig_recbyte,
-    "C04-null-output-pre-202": sig_null_output,
 }
